@@ -11,7 +11,8 @@ import writemodel as wm
 
 PROP = "C01"
 MODEL_TARGETS = ["Corr/WriteShow.vo"]
-THEOREMS = ["C01_padded_tokens", "C01_row_tokens", "C01_wrap_tokens", "C01_wrap_no_blank_line", "C01_wrap_fits", "C01_chunks", "C01_nan_is_null", "C01_nan_without_null", "C01_num_is_fmt", "C01_col_fmt", "C01_tok_matrix_nth", "C01_lines_defined", "C01_lines_tokens", "C01_wrapped_tokens", "C01_data_roundtrip_lines", "C01_clean_line_of_tokens", "C01_subs_local", "C01_nomatch_tokens", "C01_data_roundtrip", "C01_roundtrip_cell", "C01_write_data_lines", "C01_clean_is_dom2", "C01_file_roundtrip", "C01_file_roundtrip_checked", "C01_data_hyps_unfold", "C01_data_text_hyps_unfold", "C01_data_result_unfold", "C01_rows_width", "C01_file_data_core_unwrapped", "C01_file_data_core_wrapped", "C01_sniffed_count_bounded", "C01_file_data_shape", "C01_file_index_kept", "C01_file_cell_num", "C01_file_cell_nan"]
+THEOREMS = ["C01_padded_tokens", "C01_row_tokens", "C01_wrap_tokens", "C01_wrap_no_blank_line", "C01_wrap_fits", "C01_chunks", "C01_nan_is_null", "C01_nan_without_null", "C01_num_is_fmt", "C01_col_fmt", "C01_tok_matrix_nth", "C01_lines_defined", "C01_lines_tokens", "C01_wrapped_tokens", "C01_data_roundtrip_lines", "C01_clean_line_of_tokens", "C01_subs_local", "C01_nomatch_tokens", "C01_data_roundtrip", "C01_roundtrip_cell", "C01_write_data_lines", "C01_clean_is_dom2", "C01_file_roundtrip", "C01_file_roundtrip_checked", "C01_data_hyps_unfold", "C01_data_text_hyps_unfold", "C01_data_result_unfold", "C01_rows_width", "C01_file_data_core_unwrapped", "C01_file_data_core_wrapped", "C01_sniffed_count_bounded", "C01_file_data_shape", "C01_file_index_kept", "C01_file_cell_num", "C01_file_cell_nan",
+            "C01_lnf_current", "C01_col_fmt_current", "C01_spacing_current", "C01_field_current", "C01_data_rows_current"]
 ASSUMPTIONS = [
     "oracle: `fmt % x` prints x correctly rounded to the digits the format asks for, float(text) is the correctly rounded double; "
     "so the recovered sample float(fmt % x) is within half a unit of the last printed digit (plus the final binary rounding)",
